@@ -71,7 +71,7 @@ CATALOGUES = {
                   ("f", "bb:Z:t")],
         badtags=[("a", "xx:Z:bad"), ("e1", "yy:Z:bad"), ("u1", "yy:Z:bad")],
         clones=[("f", "h"), ("a", "d"), ("e1", "e9"), ("o1", "o9"), ("u1", "u9"), ("g1", "g9"), ("a", "b")],
-        hadds=[("TS:i:10", True), ("TS:i:11", True), ("zq:i:2", True), ("zq:i:x y", False), ("TS:i:abc", False)],
+        hadds=[("TS:i:10", True), ("TS:i:11", True), ("zq:i:2", True), ("zq:i:x y", False)],
         badlines=["E|e1|a+|b+|5|2|0|2|*", "E|e5|b+|c+|3|6$|0|3$|2Q", "G|g1|a+|b-|x|*", "F|a|x+|3|1|0|2|*",
                   "O|o1|a+ b", "U|u1|a  b", "E|e3|a+|c+|1|2|1|2|*|zz:i:x", "G|g2|b+|c|5|2"],
         deltags=[("h", "aa:A:c"), ("f", "bb:i:1"), ("e9", "yy:Z:a b")],
@@ -686,7 +686,7 @@ def random_jobs(catname, n, depth, seed, vlevel=1, kind="rand", cfgversion=None)
     cat = CATALOGUES[catname]
     ops = build_ops(cat)
     rnd = random.Random(seed)
-    adds = [o for o in ops if o["k"] == "add"]
+    adds = [o for o in ops if o["k"] == "add" and (vlevel >= 1 or o.get("id2") != "invalid")]
     others = [o for o in ops if o["k"] != "add" and (vlevel >= 3 or o.get("id2") != "bad")
               and (vlevel >= 2 or not (o["k"] == "hadd" and o["id2"] == "invalid"))]
     jobs = []
@@ -773,7 +773,7 @@ def doc_jobs(catname, n, nmut, seed, vlevel=1, kind="doc", cfgversion=None):
     cat = CATALOGUES[catname]
     ops = build_ops(cat)
     rnd = random.Random(seed)
-    adds = [o for o in ops if o["k"] == "add"]
+    adds = [o for o in ops if o["k"] == "add" and (vlevel >= 1 or o.get("id2") != "invalid")]
     others = [o for o in ops if o["k"] != "add" and (vlevel >= 3 or o.get("id2") != "bad")
               and (vlevel >= 2 or not (o["k"] == "hadd" and o["id2"] == "invalid"))]
     universe = universe_of(cat)
@@ -977,6 +977,8 @@ def edit_jobs(catname, n, nmut, seed, vlevel=1, kind="edit", complete=False):
                 if not vals:
                     continue
                 v = rnd.choice(vals)
+                if f[0] == "S" and (any(x.startswith("LN:i:") for x in f) or ver == "gfa2"):
+                    v = "*" if (ver == "gfa1" or pos == 3) else f[pos]
                 new = "\t".join(f[:pos] + [v] + f[pos + 1:])
                 h.append(dict(k="setf", text="", texts=[t, new], id="", id2="valid", n=pos))
                 # the model decides whether the edit is accepted; the generator follows the documented rule
@@ -998,7 +1000,9 @@ def edit_jobs(catname, n, nmut, seed, vlevel=1, kind="edit", complete=False):
                     suf = lambda L: [str(max(0, L - 2)), "%d$" % L]
                     new[4:8] = (pre(L1) + suf(L2)) if f[5].endswith("$") else (suf(L1) + pre(L2))
                 swapped = new != f
-                for _k in range(rnd.randint(0 if swapped else 1, 2)):
+                # (a segment is re-added as it was: an edited sequence or length may contradict its LN tag /
+                # the other field, which the grammar refuses -- not what this history is about)
+                for _k in range(0 if f[0] == "S" else rnd.randint(0 if swapped else 1, 2)):
                     pos = 8 if swapped else rnd.randint(2 if f[0] in "EGSPOU" else 1, npos)
                     if f[0] == "E" and 4 <= pos <= 7:
                         pos = 8      # a single position edited alone could make begin > end: not a line any more
